@@ -51,6 +51,9 @@ MUTANTS = {
         ('leeway-ms', 'dashlive/mpeg/dash/timing.py', 'self.leeway = datetime.timedelta(seconds=options.leeway)', 'self.leeway = datetime.timedelta(milliseconds=options.leeway)'),
     ],
     'C11': [
+        ('wrm-default-first', 'dashlive/drm/playready.py', "        default_keypair = keys[default_kid.lower()]", "        default_keypair = list(keys.values())[0]"),
+        ('wrm-kid-raw', 'dashlive/drm/playready.py', "            kids.append({\n                'kid': guid_kid,", "            kids.append({\n                'kid': keypair.KID.raw,"),
+        ('wrm-template', 'dashlive/drm/playready.py', "template_name = f'drm/wrmheader{int(header_version * 10)}.xml'", "template_name = f'drm/wrmheader{int(header_version) * 10}.xml'"),
         ('guid-dword', 'dashlive/drm/playready.py', "dword = ''.join([guid[6:8], guid[4:6], guid[2:4], guid[0:2]])", "dword = ''.join([guid[6:8], guid[4:6], guid[0:2], guid[2:4]])"),
         ('guid-word3-swap', 'dashlive/drm/playready.py', "word3 = ''.join([guid[16:18], guid[18:20]])", "word3 = ''.join([guid[18:20], guid[16:18]])"),
         ('key-drop-c', 'dashlive/drm/playready.py', "                ^ sha_C_Output[i] ^ sha_C_Output[i + PlayReady.DRM_AES_KEYSIZE_128]", "                ^ sha_C_Output[i]"),
